@@ -35,6 +35,13 @@ def normalize_types(f):
     return normalize_helper
 
 
+def _div_by_zero(num: float, zero: float) -> float:
+    """IEEE 754 division by a (signed) zero, which Python refuses to perform."""
+    if math.isnan(num) or num == 0:
+        return float("nan")
+    return math.copysign(float("inf"), math.copysign(1.0, num) * math.copysign(1.0, zero))
+
+
 class FPV:
     """A concrete floating point value. Used in the concrete backend for
     calculations.  Any use outside of claripy should use `claripy.FPV`
@@ -96,9 +103,7 @@ class FPV:
         try:
             return FPV(self.value / o.value, self.sort)
         except ZeroDivisionError:
-            if str(self.value * o.value)[0] == "-":
-                return FPV(float("-inf"), self.sort)
-            return FPV(float("inf"), self.sort)
+            return FPV(_div_by_zero(self.value, o.value), self.sort)
 
     def __floordiv__(self, other):  # decline to involve integers in this floating point process
         return self.__truediv__(other)
@@ -133,9 +138,7 @@ class FPV:
         try:
             return FPV(o.value / self.value, self.sort)
         except ZeroDivisionError:
-            if str(o.value * self.value)[0] == "-":
-                return FPV(float("-inf"), self.sort)
-            return FPV(float("inf"), self.sort)
+            return FPV(_div_by_zero(o.value, self.value), self.sort)
 
     def __rfloordiv__(self, other):  # decline to involve integers in this floating point process
         return self.__rtruediv__(other)
